@@ -98,6 +98,7 @@ class Harness:
         self.assumes = []
         self.stubs = []
         self.unwind = None
+        self.kani_args = []
         self.config = {}          # patches=[..], features=str, cuts=[..]
         self.order = 0
 
@@ -182,6 +183,7 @@ def parse_harness_text(path, text):
                 h.fns = pending.get("fns", [])
                 h.bound = pending.get("bound", [])
                 h.assumes = pending.get("assume", [])
+                h.kani_args = " ".join(pending.get("kani", [])).split()
                 h.stubs = stubs
                 h.unwind = unwind
                 cfg = dict(fileconfig)
@@ -510,6 +512,7 @@ def kani_cmd(h, tdir, jpath):
            "-Z", "unstable-options", "--export-json", jpath,
            "-Z", "concrete-playback", "--concrete-playback=print", "-Z", "stubbing"]
     cmd += feature_args(h.config)
+    cmd += h.kani_args
     return cmd
 
 
@@ -653,6 +656,9 @@ def cmd_check(args):
     except ValueError:
         seed = 0
     t_start = time.time()
+    global LOG_DIR
+    LOG_DIR = os.path.join(VERIF, ".kvlogs", "%s-%s" % (prop, tier))
+    shutil.rmtree(LOG_DIR, ignore_errors=True)
     os.makedirs(LOG_DIR, exist_ok=True)
     os.makedirs(EVID_DIR, exist_ok=True)
 
@@ -820,6 +826,7 @@ def write_evidence(prop, tier, seed, hs, results, glist, violations, known_hits,
             "functions_encoded": h.fns,
             "bound": h.bound,
             "unwind": h.unwind,
+            "kani_args": h.kani_args,
             "assumptions": h.assumes,
             "stubs": h.stubs + [PATCHES[p]["what"] for p in h.config.get("patches", [])] +
                      ["cut:" + c for c in h.config.get("cuts", [])],
@@ -892,6 +899,8 @@ def cmd_list(args):
 
 def cmd_replay(args):
     rp = json.load(open(args[0]))
+    global LOG_DIR
+    LOG_DIR = os.path.join(VERIF, ".kvlogs", "replay")
     os.makedirs(LOG_DIR, exist_ok=True)
     hs = [h for h in discover("thorough") if h.name == rp["harness"]]
     if not hs:
